@@ -75,29 +75,31 @@ theorem Step.retryExpire (S : Sites Sn Mq) (g : Gw) (t : Tx) (ht : t ∈ g.txs) 
     split
     · exact Step.setTx g _ (fun w => by rw [hk]; exact hko)
     · split
-      · exact Step.finishTx g t.id
+      · exact Step.setTx g _ (fun w => by rw [hk]; exact hko)
       · split
-        · rename_i p
-          have hp : Sn p := hko.1 p rfl
-          have hp' : Sn (setDup p) := S.dup p hp
-          -- the queued references are updated in place
-          have h1 : Step Sn Mq E g { g with buffer := g.buffer.map (fun (b : BufItem) =>
-              if b.tx == some t.id && b.pkt == p then { b with pkt := setDup p } else b) } := by
-            intro w
-            refine ⟨Emits.of_outs_eq rfl, ⟨?_, w.2⟩⟩
-            intro it hit
-            simp only [List.mem_map] at hit
-            obtain ⟨b, hb, rfl⟩ := hit
-            split
-            · exact hp'
-            · exact w.1 b hb
-          refine Step.trans h1 (Step.trans (Step.setTx _ _ (fun _ => ?_)) (Step.snSend _ _ _ hp'))
-          exact ⟨(fun p' e => by cases e; exact hp'), (fun p' e => by cases e), hko.2.2⟩
-        · rename_i p
-          have hp : Mq p := hko.2.1 p rfl
-          refine Step.trans (Step.setTx _ _ (fun _ => ?_)) (Step.mqttSend _ _ hp)
-          exact hko
         · exact Step.finishTx g t.id
+        · split
+          · rename_i p _
+            have hp : Sn p := hko.1 p rfl
+            have hp' : Sn (setDup p) := S.dup p hp
+            -- the queued references are updated in place
+            have h1 : Step Sn Mq E g { g with buffer := g.buffer.map (fun (b : BufItem) =>
+                if b.tx == some t.id && b.pkt == p then { b with pkt := setDup p } else b) } := by
+              intro w
+              refine ⟨Emits.of_outs_eq rfl, ⟨?_, w.2⟩⟩
+              intro it hit
+              simp only [List.mem_map] at hit
+              obtain ⟨b, hb, rfl⟩ := hit
+              split
+              · exact hp'
+              · exact w.1 b hb
+            refine Step.trans h1 (Step.trans (Step.setTx _ _ (fun _ => ?_)) (Step.snSend _ _ _ hp'))
+            exact ⟨(fun p' e => by cases e; exact hp'), (fun p' e => by cases e), hko.2.2⟩
+          · rename_i p _
+            have hp : Mq p := hko.2.1 p rfl
+            refine Step.trans (Step.setTx _ _ (fun _ => ?_)) (Step.mqttSend _ _ hp)
+            exact hko
+          · exact Step.finishTx g t.id
   · exact Step.refl g
 
 theorem Step.txExpire (S : Sites Sn Mq) (g : Gw) (t : Tx) (ht : t ∈ g.txs) : Step Sn Mq E g (g.txExpire t) := by
